@@ -100,6 +100,7 @@ def scenario(w):
     model = {'console': None, 'disabled': False, 'file': False}
     hist = []
     ops = []
+    w.sample = {'specs': [{k: v for k, v in sp.items() if k != 'x'} for sp in specs], 'history': hist}
 
     def check_level(after):
         got = L.get_level()
